@@ -75,6 +75,34 @@ def parseNat? : Str → Option Nat
       | none => none
       | some v => if 48 ≤ c ∧ c ≤ 57 then some (v * 10 + (c - 48)) else none) (some 0)
 
+/-- `strconv.Atoi`: an optional sign (`+` / `-`), then one or more decimal digits, nothing
+else; `none` where Go returns an error (empty, no digit, any other character, value outside
+the 64-bit `int` range) -/
+def atoi? (s : Str) : Option Int :=
+  let neg := match s with
+    | 45 :: _ => true
+    | _ => false
+  let ds := match s with
+    | 45 :: r => r
+    | 43 :: r => r
+    | _ => s
+  match parseNat? ds with
+  | none => none
+  | some v =>
+    if neg then (if v ≤ 9223372036854775808 then some (-(Int.ofNat v)) else none)
+    else (if v ≤ 9223372036854775807 then some (Int.ofNat v) else none)
+
+/-- `maxCellSpan` (docx/tables.go, odt/tables.go): the largest span / column repetition accepted -/
+abbrev maxCellSpan : Nat := 1024
+
+/-- a span or repetition attribute: `strconv.Atoi` succeeds and the value lies in
+`1..maxCellSpan`; anything else (empty, not a number, zero, negative, larger) leaves the
+default 1 (`err == nil && span > 0 && span <= maxCellSpan`) -/
+def boundedSpan (s : Str) : Nat :=
+  match atoi? s with
+  | some v => if 0 < v ∧ v ≤ 1024 then v.toNat else 1
+  | none => 1
+
 /-- ASCII lower-casing (`strings.ToLower` on the ASCII names the generator uses) -/
 def lower (s : Str) : Str := s.map fun c => if 65 ≤ c ∧ c ≤ 90 then c + 32 else c
 
